@@ -157,6 +157,10 @@ impl Check for C04 {
             }
             big.push(vec![V::Arr((0..2_000_000).map(|i| V::Num((i as f64).to_bits())).collect()), V::Bool(true)]);
             big.push(vec![V::Obj((0..300).map(|i| (format!("p{}", i), V::Str(full.clone()))).collect()), V::Undef]);
+            // more than 65,536 of something small: properties, top-level values, elements that are containers
+            big.push(vec![V::Obj((0..65_537).map(|i| (format!("k{}", i), V::Num(i as u64))).collect()), V::Bool(false)]);
+            big.push((0..65_537).map(|i| if i % 2 == 0 { V::Null } else { V::Num(i as u64) }).collect());
+            big.push(vec![V::Arr((0..65_537).map(|i| if i % 3 == 0 { V::Arr(vec![]) } else { V::Obj(vec![("a".to_string(), V::Null)]) }).collect())]);
             for vs in big.iter() {
                 check_one(vs, out);
             }
@@ -181,7 +185,7 @@ impl Check for C04 {
         }
     }
     fn rule(&self) -> String {
-        "sequences of 0-6 AMF0 values, nesting depth <= 6: numbers from raw 64-bit patterns (NaNs with payloads, signed zero, infinities, subnormals, integers), booleans, strings and property names with lengths in {0,1,..,300,65533..65538,70000} built from 1-4 byte UTF-8 sequences and NULs, objects of 0-8 properties, arrays of 0-300 elements; objects shaped like Flash associative arrays (keys 0..n-1 plus length n, n+1 or n-1) and property names code may treat specially (length, 0, __proto__, name, type, code ...); six sequences whose encoding is longer than 16 MiB (257 strings of 65,535 bytes; a value boundary exactly at 2^24-1, 2^24 and 2^24+1 with values behind it; an array of 2 M numbers; an object of 300 long strings); plus 18 fixed boundary cases and arrays/objects/mixed containers nested {1,8,64,126..131,255..257,500,1000} deep. A case is non-trivial when it nests, carries a special number or a long string; distinct = distinct structural hash (type multiset, depth, length classes).".to_string()
+        "sequences of 0-6 AMF0 values, nesting depth <= 6: numbers from raw 64-bit patterns (NaNs with payloads, signed zero, infinities, subnormals, integers), booleans, strings and property names with lengths in {0,1,..,300,65533..65538,70000} built from 1-4 byte UTF-8 sequences and NULs, objects of 0-8 properties, arrays of 0-300 elements; objects shaped like Flash associative arrays (keys 0..n-1 plus length n, n+1 or n-1) and property names code may treat specially (length, 0, __proto__, name, type, code ...); six sequences whose encoding is longer than 16 MiB (257 strings of 65,535 bytes; a value boundary exactly at 2^24-1, 2^24 and 2^24+1 with values behind it; an array of 2 M numbers; an object of 300 long strings), and three with more than 65,536 of something small (properties, top-level values, container elements); plus 18 fixed boundary cases and arrays/objects/mixed containers nested {1,8,64,126..131,255..257,500,1000} deep. A case is non-trivial when it nests, carries a special number or a long string; distinct = distinct structural hash (type multiset, depth, length classes).".to_string()
     }
     fn assumptions(&self) -> Vec<String> {
         vec![
